@@ -32,9 +32,16 @@ def call(sel, nreq, req, use_chunks, subset, seed, variant=0):
 
 
 def _compare(ctx, case, k, fallback):
-    sel = make_selector(case['times'], case['clu'], case['bounds'], case['nkept'],
-                        [np.int64, np.float64, np.uint64][k % 3])
-    kept = as_list(sel.chunks_kept)
+    if k % 4 == 3:
+        # INTEGER spike times against NON-INTEGER chunk bounds: times t + 1, bounds b + 1/2 - the same order
+        # relations as the specification's integers (t >= b  <=>  t + 1 >= b + 1/2)
+        sel = make_selector([t + 1 for t in case['times']], case['clu'], [b + 0.5 for b in case['bounds']],
+                            case['nkept'], [np.int64, np.int32][k % 2])
+        kept = [int(x) if float(x).is_integer() else float(x) for x in (np.asarray(sel.chunks_kept) - 0.5)]
+    else:
+        sel = make_selector(case['times'], case['clu'], case['bounds'], case['nkept'],
+                            [np.int64, np.float64, np.uint64][k % 3])
+        kept = as_list(sel.chunks_kept)
     if kept != case['chunksKept']:
         # another choice of kept chunks may still be whole grid intervals at a regular stride: the relational
         # P-layer (KeptOkOf, ValidSelOf on the observed kept chunks) judges it in the trace specification
